@@ -76,3 +76,25 @@ Definition diff_packets (dec : bool) (M : bmodel) (O : prog) : list (string * li
 
 Definition show_diffs (d : list (string * list (string * string))) : string :=
   join "%%" (map (fun '(path, l) => path ++ "==" ++ join "&&" (map (fun '(a, b) => a ++ "~~" ++ b) l)) d).
+
+(* one string per (model, observed program): the reference's text, the validator's verdicts
+   and the differing steps - computed once *)
+Definition report (M : bmodel) (O : prog) : string :=
+  let R := ref_prog M (mk_of O) in
+  let verdicts (dec : bool) :=
+      join "," (map (fun '(path, ir) =>
+                       path ++ "=" ++ show_bool (match find_ir R path with
+                                                 | Some r => pkt_eqvb dec (path, ir) (path, r)
+                                                 | None => false
+                                                 end)) O) in
+  let diffs (dec : bool) :=
+      show_diffs (map (fun '(path, ir) =>
+         (path, match find_ir R path with
+                | Some r =>
+                    let n := Nat.max (ir_members ir) (ir_members r) in
+                    ((if Nat.eqb (ir_members ir) (ir_members r) then [] else [("members", "members")]) ++
+                     (if dec then diff_dec n (ir_dec ir) (ir_dec r) else diff_enc n (ir_enc ir) (ir_enc r)))%list
+                | None => [("no such packet", "-")]
+                end)) O) in
+  show_prog R ++ "@@" ++ show_bool (paths_ok M) ++ "@@" ++ verdicts false ++ "@@" ++ verdicts true
+  ++ "@@" ++ diffs false ++ "@@" ++ diffs true.
